@@ -5,6 +5,7 @@ import (
 	"errors"
 	"fmt"
 	"io"
+	"net"
 	"net/http"
 	"net/http/httptest"
 	"net/url"
@@ -44,6 +45,17 @@ type countingRT struct {
 func (c countingRT) RoundTrip(r *http.Request) (*http.Response, error) {
 	atomic.AddInt64(c.n, 1)
 	return c.inner.RoundTrip(r)
+}
+
+func credKeys(c *scriptCreds) []string {
+	var ks []string
+	if c != nil {
+		for k := range c.md {
+			ks = append(ks, k)
+		}
+	}
+	sort.Strings(ks)
+	return ks
 }
 
 func sortedMD(md metadata.MD, keys map[string]bool) string {
@@ -87,17 +99,29 @@ func runC13(o *hx.Out, r *hx.Rand, thorough bool) {
 	defer plain.Close()
 	tlsS := httptest.NewTLSServer(hs)
 	defer tlsS.Close()
+	// the same handler behind a "real IP" middleware: RemoteAddr is a bare address, not host:port
+	realIP := http.HandlerFunc(func(w http.ResponseWriter, rq *http.Request) {
+		if h, _, err := net.SplitHostPort(rq.RemoteAddr); err == nil {
+			rq.RemoteAddr = h
+		}
+		hs.ServeHTTP(w, rq)
+	})
+	plainR := httptest.NewServer(realIP)
+	defer plainR.Close()
+	tlsR := httptest.NewTLSServer(realIP)
+	defer tlsR.Close()
 	ipc := &inprocgrpc.Channel{}
 	ipc.RegisterService(hx.Desc(hx.SvcName), svc)
 
 	callerMDs := []metadata.MD{nil, {}, {"k": {"a"}}, {"k": {"a", "b"}, "other": {"x"}}, {"auth": {"caller"}, "trace-bin": {"\x00\xff\n"}}}
-	credMDs := []map[string]string{nil, {}, {"t": "tok"}, {"k": "c", "t": "tok"}, {"auth": "cred", "k": "c2", "z": "9"}}
+	// keys with upper-case letters are metadata keys all the same (gRPC lower-cases them)
+	credMDs := []map[string]string{nil, {}, {"t": "tok"}, {"k": "c", "t": "tok"}, {"auth": "cred", "k": "c2", "z": "9"}, {"Auth": "Cred", "K": "C3", "Other": "y", "New-Key": "n"}}
 	rep := 1
 	if thorough {
 		rep = 3
 	}
 	for rp := 0; rp < rep; rp++ {
-		for _, transport := range []string{"http", "https", "inproc"} {
+		for _, transport := range []string{"http", "https", "inproc", "http-realip", "https-realip"} {
 			for _, stream := range []bool{false, true} {
 				for ci := -1; ci < len(credMDs)*2+2; ci++ { // -1: no credentials; then (md, secure) pairs; last two: failing creds
 					for _, wantPeer := range []bool{false, true} {
@@ -118,7 +142,7 @@ func runC13(o *hx.Out, r *hx.Rand, thorough bool) {
 								}
 								sort.Strings(ks)
 								for _, k := range ks {
-									items = append(items, "("+hx.Str(k)+", ["+hx.Str(sc.md[k])+"])")
+									items = append(items, "("+hx.Str(strings.ToLower(k))+", ["+hx.Str(sc.md[k])+"])")
 								}
 								credTerm = fmt.Sprintf("(Some {| require_secure := %s; cred_md := Some %s |})", hx.B(sc.secure), hx.List(items))
 							} else {
@@ -141,7 +165,7 @@ func runC13(o *hx.Out, r *hx.Rand, thorough bool) {
 						}
 						if creds != nil {
 							for k := range creds.md {
-								keys[k] = true
+								keys[strings.ToLower(k)] = true
 							}
 						}
 						var opts []grpc.CallOption
@@ -164,6 +188,14 @@ func runC13(o *hx.Out, r *hx.Rand, thorough bool) {
 							u, _ := url.Parse(tlsS.URL)
 							host = u.Host
 							ch = &httpgrpc.Channel{Transport: countingRT{tlsS.Client().Transport, &nreq}, BaseURL: u}
+						case "http-realip":
+							u, _ := url.Parse(plainR.URL)
+							host = u.Host
+							ch = &httpgrpc.Channel{Transport: countingRT{plainR.Client().Transport, &nreq}, BaseURL: u}
+						case "https-realip":
+							u, _ := url.Parse(tlsR.URL)
+							host = u.Host
+							ch = &httpgrpc.Channel{Transport: countingRT{tlsR.Client().Transport, &nreq}, BaseURL: u}
 						default:
 							ch = ipc
 							nreq = -1
@@ -202,14 +234,14 @@ func runC13(o *hx.Out, r *hx.Rand, thorough bool) {
 							_, pAuth = pr.AuthInfo.(credentials.TLSInfo)
 						}
 						reqs := nreq
-						desc := map[string]interface{}{"transport": transport, "stream": stream, "creds": credTerm, "caller_md": cm, "peer_option": wantPeer,
+						desc := map[string]interface{}{"transport": transport, "stream": stream, "creds": credTerm, "creds_keys_as_given": credKeys(creds), "caller_md": cm, "peer_option": wantPeer,
 							"error": fmt.Sprint(err), "requests": reqs}
-						if creds != nil && creds.secure && transport == "http" && reqs > 0 {
+						if creds != nil && creds.secure && strings.HasPrefix(transport, "http") && !strings.HasPrefix(transport, "https") && reqs > 0 {
 							o.Violate("credentials requiring transport security crossed plain http", desc, reqs, 0)
 						}
 						kind := strings.Join([]string{transport, map[bool]string{false: "unary", true: "stream"}[stream]}, "_")
 						o.Case(kind, fmt.Sprintf("CallCase %s %s %s %s %s %s %s %s %s {| o_failed := %s; o_requests := %s; o_handler_md := %s; o_peer_addr := %s; o_peer_auth := %s; o_handler_peer_auth := %s; o_handler_peer_addr_set := %s |}",
-							hx.Str(transport), hx.B(transport == "https"), hx.B(transport == "inproc"), hx.B(stream), credTerm, outTerm, hx.B(wantPeer), hx.Str(host), hx.B(hasPort),
+							hx.Str(transport), hx.B(strings.HasPrefix(transport, "https")), hx.B(transport == "inproc"), hx.B(stream), credTerm, outTerm, hx.B(wantPeer), hx.Str(host), hx.B(hasPort),
 							hx.B(err != nil), hx.Z(reqs), hmd, pAddr, hx.B(pAuth), hx.B(hAuth), hx.B(hAddr)), desc)
 					}
 				}
